@@ -368,15 +368,13 @@ func (bm *ConnectedBitmask) Extract(bit uint) bool {
 		if e.max < bit {
 			return false
 		}
-		e.max--
-		if e.min < bit {
+		if e.min == bit && e.max == bit {
+			// remove the entry, it only contains the extracted bit
+			bm.entries = append(bm.entries[:i], bm.entries[i+1:]...)
 			return true
 		}
-		if e.min == bit {
-			if e.max < e.min {
-				// remove the entry, it was {bit, bit} before
-				bm.entries = append(bm.entries[:i], bm.entries[i+1:]...)
-			}
+		e.max--
+		if e.min <= bit {
 			return true
 		}
 		e.min--
